@@ -53,21 +53,18 @@ func makeURLKey(u *url.URL) string {
 	if u.Opaque != "" {
 		return u.Opaque
 	}
-	// RFC 3986 §6.2.2.3: Path normalization (dot-segment removal) is handled by
-	// [url.URL.ResolveReference], which uses the RFC 3986 §5.2.4 algorithm.
-	base, _ := url.Parse(u.Scheme + "://" + u.Host)
-	normalized := base.ResolveReference(u)
-
 	// RFC 3986 §6.2.2.1: Scheme is lowercased (already done by [url.Parse]).
-	scheme := normalized.Scheme
+	scheme := u.Scheme
 
-	host, port := splitHostPort(normalized.Host)
+	host, port := splitHostPort(u.Host)
 	defaultP := defaultPort(scheme)
 	if port == "" {
 		port = defaultP
 	}
-	// RFC 3986 §6.2.2.1: Host is lowercased.
-	hostPort := strings.ToLower(host)
+	// RFC 3986 §6.2.2.1: Host is lowercased. Only ASCII letters: a host is ASCII
+	// (IDNA A-labels) or percent-encoded octets, and strings.ToLower would fold
+	// other letters onto ASCII ones and replace octets that are not UTF-8.
+	hostPort := lowerASCII(host)
 
 	// RFC 3986 §6.2.3: Only include port if it is non-default for the scheme.
 	if port != "" && port != defaultP {
@@ -76,23 +73,53 @@ func makeURLKey(u *url.URL) string {
 
 	// RFC 3986 §6.2.3: An empty path for http/https is normalized to "/".
 	// Also see https://datatracker.ietf.org/doc/html/rfc7230#section-2.7.3
-	path := normalized.EscapedPath()
+	// RFC 3986 §6.2.2.2: Normalize percent-encoding in path, and only then
+	// RFC 3986 §6.2.2.3: remove dot segments ("%2E" is a dot), by the §5.2.4
+	// algorithm (which keeps empty segments: "/..//a" is "//a", not "/a").
+	path := removeDotSegments(normalizePercentEncoding(u.EscapedPath()))
 	if path == "" && (scheme == "http" || scheme == "https") {
 		path = "/"
 	}
-
-	// RFC 3986 §6.2.2.2: Normalize percent-encoding in path.
-	path = normalizePercentEncoding(path)
 	result := scheme + "://" + hostPort + path
 
 	// RFC 3986 §6.2.2.2: Normalize percent-encoding in query, if present.
-	if normalized.RawQuery != "" {
-		result += "?" + normalizePercentEncoding(normalized.RawQuery)
+	if u.RawQuery != "" {
+		result += "?" + normalizePercentEncoding(u.RawQuery)
 	}
 
 	// RFC 3986 §6.1 Equivalence: "fragment components (if any) should be excluded from
 	// the comparison"
 	return result
+}
+
+// removeDotSegments is the algorithm of RFC 3986 §5.2.4 on an absolute or empty
+// path: "." and ".." are complete path segments; everything else, empty
+// segments included, is kept.
+func removeDotSegments(path string) string {
+	if path == "" || path[0] != '/' {
+		return path
+	}
+	segs := strings.Split(path[1:], "/")
+	out := make([]string, 0, len(segs))
+	for i, seg := range segs {
+		last := i == len(segs)-1
+		switch seg {
+		case ".":
+			if last {
+				out = append(out, "")
+			}
+		case "..":
+			if len(out) > 0 {
+				out = out[:len(out)-1]
+			}
+			if last {
+				out = append(out, "")
+			}
+		default:
+			out = append(out, seg)
+		}
+	}
+	return "/" + strings.Join(out, "/")
 }
 
 // normalizePercentEncoding rewrites percent-encoded characters in a URL path or query
